@@ -72,6 +72,12 @@ def r1_r4_expansion(prog, rep: Report, f: Func):
         if len(comb_pos) == 1 and len(idx_pos) == 1 and len(key_pos) == 1 and key_pos[0] == 0:
             seed_ok = True
             layout = {"key": key_pos[0], "comb": comb_pos[0], "index": idx_pos[0], "arity": len(elts)}
+    if not seed_ok and len(seed.generators) == 1 and not g0.ifs and not isinstance(seed.elt, ast.Tuple) \
+            and isinstance(g0.iter, ast.Call) and src(g0.iter.func) == "enumerate" and [src(a) for a in g0.iter.args] == [elements]:
+        # one entry per element, unfiltered, but the entry is built by a call (a named tuple, a helper): its layout is not
+        # something this rule reads
+        rep.unrec("C17.R1", f, "seeds", f"the seed entries are built by `{src(seed.elt)[:80]}`, not written as a tuple")
+        return
     rep.check("C17.R1", f, "seeds", seed_ok, f"[(key((e,)), …, (e,), i) for i, e in enumerate({elements})]",
               f"the seed `{src(seed)}` is not one (key, …, singleton, index) entry per element",
               scenario="an element without a singleton seed never appears in any combination; a filtered seed loses combinations")
@@ -305,6 +311,13 @@ def r5_scan(prog, rep: Report, g: Func, f: Func):
         a0 = flow.expand(call.args[0]) if isinstance(call.args[0], ast.Name) else call.args[0]
         ok_call = src(a0) == f"range(len({elements}))" and _is_score_sum_key(g, call.args[1], scores) \
             and any(k.arg == "yield_key" and const_value(k.value) is True for k in call.keywords)
+    from ..util import expand_all as _ea
+    call_x = _ea(call, flow) if isinstance(call, ast.AST) else call
+    if not ok_call and isinstance(call_x, ast.Call) and src(call_x.func) != f.name and any(
+            isinstance(n_, ast.Call) and src(n_.func) == f.name for n_ in ast.walk(call_x)):
+        # the stream is wrapped (takewhile, islice, a filter ...): what the wrapper lets through is not something this rule reads
+        rep.unrec("C17.R5", g, "feeds", f"the scan is fed by a wrapped stream: `{src(call)[:120]}`")
+        return
     rep.check("C17.R5", g, "feeds", ok_call, "sorted_combinations(range(len(elements)), exact sum of the scores, yield_key=True)",
               f"the scan is not fed by sorted_combinations over all element indices keyed by the exact (builtin +) score sum: `{src(call)[:160]}`",
               scenario="the stream is not ordered by score sum, so the first score in the interval is not the minimum")
